@@ -78,14 +78,22 @@ unsigned long g_n, g_fu; link *g_sent; _Bool g_m_in_ring; int g_shape;
   __CPROVER_ensures(s->__end1.p == &s->self->matchers._b0 && KCUR(s) == s->self->matchers._b0.next)
 
 #include "unit.c"
+#ifdef WANT_COST
 #include "cost_outlined.c"
+#endif
+#ifdef WANT_COMPLETED
 #include "completed_outlined.c"
+#endif
 int nondet_int(void); unsigned long nondet_ulong(void); _Bool nondet_bool(void);
 static void ghost(void) { g_shape = nondet_int(); g_n = nondet_ulong(); g_fu = nondet_ulong(); g_m_in_ring = nondet_bool(); }
+#ifdef WANT_COST
 void c_iter(void) { struct cost_st *s; ghost(); cost__iter(s); __CPROVER_assert(g_shape != 0, "REACH cost cur=m"); __CPROVER_assert(g_shape != 1 + 3 * 1, "REACH cost cur=node next=m"); __CPROVER_assert(g_shape != 2, "REACH cost cur=sentinel"); __CPROVER_assert(g_shape != 1 + 3 * 2, "REACH cost cur=node next=node"); }
 void c_exit(void) { struct cost_st *s; ghost(); cost__exit(s); __CPROVER_assert(g_shape != 2, "REACH cost exit"); }
 void c_init(void) { struct cost_st *s; ghost(); cost__init(s); __CPROVER_assert(g_shape != 0, "REACH cost init empty"); __CPROVER_assert(g_shape != 1, "REACH cost init nonempty"); }
+#endif
+#ifdef WANT_COMPLETED
 void k_iter(void) { struct completed_st *s; ghost(); completed__iter(s); __CPROVER_assert(g_shape != 0, "REACH completed cur=node next=sentinel"); __CPROVER_assert(g_shape != 2, "REACH completed cur=node next=node"); __CPROVER_assert(g_shape != 1, "REACH completed cur=sentinel"); }
 void k_exit(void) { struct completed_st *s; ghost(); completed__exit(s); __CPROVER_assert(g_shape != 1, "REACH completed exit"); }
 void k_init(void) { struct completed_st *s; ghost(); completed__init(s); __CPROVER_assert(0, "REACH completed init"); }
+#endif
 int main(void) { VP_ENTRY(); return 0; }
